@@ -113,7 +113,7 @@ impl log4rs::append::Append for ReAppender {
         }
         self.w.issue_kids(id, false, self.idx);
         if self.fails {
-            Err(anyhow::anyhow!("{}:{}", self.idx, id))
+            Err(varied_error(format!("{}:{}", self.idx, id)))
         } else {
             Ok(())
         }
@@ -453,7 +453,7 @@ fn handler_history() -> Option<String> {
     struct Fail;
     impl log4rs::append::Append for Fail {
         fn append(&self, _r: &log::Record) -> anyhow::Result<()> {
-            Err(anyhow::anyhow!("appender fails"))
+            Err(varied_error("appender fails".to_string()))
         }
         fn flush(&self) {}
     }
